@@ -159,6 +159,38 @@ type violation struct {
 	Rec    json.RawMessage `json:"rec"`
 	Replay string          `json:"replay"`
 	Seed   uint64          `json:"seed"`
+	Seed0  uint64          `json:"seed0"`
+	Stride uint64          `json:"stride"`
+	Tier   string          `json:"tier"`
+}
+
+// seqReplay is the replay file for a violation that depends on state left in
+// the process by earlier scenarios (package-level state of the library): the
+// deterministic seed sequence seed0..stop_seed re-executed in one fresh process.
+type seqReplay struct {
+	Kind     string `json:"kind"` // "sequence"
+	Property string `json:"property"`
+	Tier     string `json:"tier"`
+	Seed0    uint64 `json:"seed0"`
+	Stride   uint64 `json:"stride"`
+	StopSeed uint64 `json:"stop_seed"`
+	Class    string `json:"class"`
+	Note     string `json:"note"`
+}
+
+func runSeq(worker, sites, known string, r *seqReplay, w io.Writer) int {
+	n := (r.StopSeed-r.Seed0)/r.Stride + 1
+	cmd := exec.Command(worker, "-p", r.Property, "-tier", r.Tier, "-seed0", strconv.FormatUint(r.Seed0, 10), "-stride", strconv.FormatUint(r.Stride, 10),
+		"-runs", strconv.FormatUint(n, 10), "-stopseed", strconv.FormatUint(r.StopSeed, 10), "-stopclass", r.Class, "-sites", sites, "-known", known)
+	cmd.Stdout, cmd.Stderr = w, w
+	err := cmd.Run()
+	if err == nil {
+		return 0
+	}
+	if ee, ok := err.(*exec.ExitError); ok {
+		return ee.ExitCode()
+	}
+	return 2
 }
 
 func main() {
@@ -211,6 +243,17 @@ func main() {
 	known := filepath.Join(vdir, "known_findings.json")
 
 	if *replay != "" {
+		if b, err := os.ReadFile(*replay); err == nil {
+			var sr seqReplay
+			if json.Unmarshal(b, &sr) == nil && sr.Kind == "sequence" {
+				code := runSeq(worker, sites, known, &sr, os.Stdout)
+				if code == 1 {
+					fmt.Printf("VIOLATION property=%s replay=%s\n", sr.Property, *replay)
+				}
+				cleanup()
+				os.Exit(code)
+			}
+		}
 		code := runReplay(worker, sites, known, *replay, os.Stdout)
 		if code == 1 {
 			b, _ := os.ReadFile(*replay)
@@ -320,9 +363,43 @@ func main() {
 			fmt.Print(indent(ob.String()))
 			exit = 1
 		} else {
-			fmt.Fprintf(os.Stderr, "vcheck: violation found by seed %d did not reproduce in a fresh process (exit %d): simulator bug\n%s\n%s\n", v.Seed, code, string(v.Rec), ob.String())
-			if exit == 0 {
-				exit = 2
+			// Not reproducible alone: it may depend on state left in the worker process
+			// by earlier scenarios (a package-level cache in the library). Re-execute
+			// growing suffixes of the worker's deterministic seed sequence.
+			var rec struct {
+				Class string `json:"class"`
+			}
+			_ = json.Unmarshal(v.Rec, &rec)
+			done := false
+			if v.Stride > 0 && v.Seed > v.Seed0 {
+				total := (v.Seed - v.Seed0) / v.Stride
+				for l := uint64(1); !done; l *= 4 {
+					if l > total {
+						l = total
+					}
+					sr := &seqReplay{Kind: "sequence", Property: *prop, Tier: v.Tier, Seed0: v.Seed - l*v.Stride, Stride: v.Stride, StopSeed: v.Seed, Class: rec.Class,
+						Note: "the violation needs the state left in the process by the preceding scenarios (package-level state of the library); replay re-executes this seed sequence in one fresh process"}
+					var sb bytes.Buffer
+					if runSeq(worker, sites, known, sr, &sb) == 1 {
+						path := strings.TrimSuffix(v.Replay, ".json") + "-seq.json"
+						jb, _ := json.MarshalIndent(sr, "", " ")
+						_ = os.WriteFile(path, jb, 0o644)
+						confirmed++
+						fmt.Printf("VIOLATION property=%s replay=%s\n", *prop, path)
+						fmt.Print(indent(sb.String()))
+						exit = 1
+						done = true
+					}
+					if l == total {
+						break
+					}
+				}
+			}
+			if !done {
+				fmt.Fprintf(os.Stderr, "vcheck: violation found by seed %d did not reproduce in a fresh process (exit %d), neither alone nor after the worker's preceding scenarios: simulator bug\n%s\n%s\n", v.Seed, code, string(v.Rec), ob.String())
+				if exit == 0 {
+					exit = 2
+				}
 			}
 		}
 	}
